@@ -93,6 +93,27 @@ def step (d : DS) (ws : List String) : DS × String :=
       | none => s3) else s3
     let s := quiesce s4 200
     ({ d with sys := s, known := s.srv.alive.foldl (fun acc i => if i ∈ acc then acc else i :: acc) d.known }, stateStr s)
+  | ["dead-race", c1, c2] =>
+    -- both Gets register, read the placeholder, find the liveness key missing (pc = freeing); then the
+    -- first one's release goes through and it runs on, then the second's
+    let add (s : Sys) (c : String) : Sys × Nat :=
+      let s1 := next s (.newGet (c.toNat?.getD 0 + 1))
+      let idx := s1.gs.length - 1
+      ((List.range 3).foldl (fun t _ => next t (.step idx none)) s1, idx)
+    let (sa, ia) := add d.sys c1
+    let (sb, ib) := add sa c2
+    let isFreeing (s : Sys) (i : Nat) : Bool := match s.gs[i]? with
+      | some g => (match g.pc with | .freeing _ => true | _ => false)
+      | none => false
+    let rel := (if isFreeing sb ia then ["as.delkey"] else []) ++ (if isFreeing sb ib then ["as.delkey"] else [])
+    -- the first Get alone up to its loader (or wherever it stops), then everybody
+    let runOne (s : Sys) (i : Nat) : Sys := (List.range 8).foldl (fun t _ =>
+      match t.gs[i]? with
+      | some g => if isLoading g || isDone g then t else next t (.step i none)
+      | none => t) s
+    let s := quiesce (runOne sb ia) 200
+    ({ d with sys := s, known := s.srv.alive.foldl (fun acc i => if i ∈ acc then acc else i :: acc) d.known },
+      "release=" ++ ",".intercalate rel ++ " " ++ stateStr s)
   | ["load-ok", v] =>
     match firstIdx d.sys.gs isLoading with
     | some i => ev d (.step i (some (valOf (unhx v))))
